@@ -23,7 +23,7 @@ func (Prop) ID() string     { return "C20" }
 func (Prop) Level() string  { return "exploration" }
 func (Prop) QuickRuns() int { return 2500 }
 func (Prop) Rule() string {
-	return "each run = one history of 1-30 container operations (add new / replacing, remove present / absent, get, Map()+mutate the copy, All() fully / with early break, collect-copy then mutate the original, MarshalCedar, JSON round trip replacing the live set, UnmarshalJSON of another set into the live non-empty set, Cedar-text round trip replacing the live set, loading a generated document with a file name) over 9 ids (incl. ids that need JSON escaping) and a pool of 9 policies that a fixed panel of 6 requests tells apart, under tape-chosen map iteration orders; after EVERY step the set is compared with a plain map model (contents, return values, authorization on the panel, emission order). In addition all 4680 histories of length <= 4 over a reduced alphabet of 8 operations are enumerated in every check. Non-trivial iff the history contains >= 3 mutating operations and at least one round trip or load; distinct = distinct hash of the decoded operation sequence."
+	return "each run = one history of 1-30 container operations (add new / replacing, remove present / absent, get, Map()+mutate the copy, All() fully / with early break, collect-copy then mutate the original, MarshalCedar, JSON round trip replacing the live set, UnmarshalJSON of another set into the live non-empty set, replacing the other ids while an All() iteration is in progress, Cedar-text round trip replacing the live set, loading a generated document with a file name) over 9 ids (incl. ids that need JSON escaping) and a pool of 9 policies that a fixed panel of 6 requests tells apart, under tape-chosen map iteration orders; after EVERY step the set is compared with a plain map model (contents, return values, authorization on the panel, emission order). In addition all 4680 histories of length <= 4 over a reduced alphabet of 8 operations are enumerated in every check. Non-trivial iff the history contains >= 3 mutating operations and at least one round trip or load; distinct = distinct hash of the decoded operation sequence."
 }
 func (Prop) Assumptions() []string {
 	return []string{
@@ -124,10 +124,11 @@ const (
 	opRoundTripCedar
 	opLoadDoc
 	opUnmarshalInPlace
+	opReplaceDuringAll
 	nOps
 )
 
-var opNames = []string{"Add", "Remove", "Get", "Map+mutate", "All", "All+break", "Collect+mutate-original", "MarshalCedar", "JSON-round-trip", "Cedar-round-trip", "LoadDocument", "UnmarshalJSON-into-live-set"}
+var opNames = []string{"Add", "Remove", "Get", "Map+mutate", "All", "All+break", "Collect+mutate-original", "MarshalCedar", "JSON-round-trip", "Cedar-round-trip", "LoadDocument", "UnmarshalJSON-into-live-set", "All+replace-others-during-iteration"}
 
 type op struct {
 	kind   opKind
@@ -153,6 +154,8 @@ func (o op) String() string {
 		return fmt.Sprintf("All+break(after %d)", o.brk)
 	case opMapMutate, opCollectThenMutate:
 		return fmt.Sprintf("%s(%q, pool[%d])", opNames[o.kind], ids[o.id], o.pol)
+	case opReplaceDuringAll:
+		return fmt.Sprintf("%s(pool[%d])", opNames[o.kind], o.pol)
 	}
 	return opNames[o.kind]
 }
@@ -160,7 +163,10 @@ func (o op) String() string {
 func genOp(t *verifsim.Tape) op {
 	o := op{}
 	// weights: mutations are frequent
-	switch x := t.Intn(21); {
+	switch x := t.Intn(22); {
+	case x == 21:
+		o.kind = opReplaceDuringAll
+		o.pol = t.Intn(len(pool))
 	case x == 20:
 		o.kind = opUnmarshalInPlace
 	case x < 6:
@@ -533,6 +539,33 @@ func (st *state) apply(o op, r *core.Run) *core.Violation {
 			}
 		}
 		r.Count("reach.cedar_round_trip")
+	case opReplaceDuringAll:
+		// like ranging over a plain map: a value replaced before the iteration reaches its
+		// key is yielded as the NEW value; removed keys are not yielded
+		first := true
+		for k, p := range st.live.All() {
+			e, ok := st.model[k]
+			if !ok {
+				return viol("contents-extra", "All() yields %q which the model does not hold (during iteration)", k)
+			}
+			if e.ptr != nil && p != e.ptr {
+				return viol("all-stale-value", "All() yields a stale policy for %q: it was replaced before the iteration reached it", k)
+			}
+			if canonText(p) != e.text {
+				return viol("all-stale-value", "All() yields %q for %q, the set holds %q since it was replaced during the iteration", canonText(p), k, e.text)
+			}
+			if first {
+				first = false
+				np := freshPolicy(o.pol)
+				for _, other := range st.sortedIDs() {
+					if other != k {
+						st.live.Add(other, np)
+						st.model[other] = &entry{text: pool[o.pol].text, ptr: np}
+					}
+				}
+			}
+		}
+		r.Count("reach.replace_during_iteration")
 	case opUnmarshalInPlace:
 		// decode another set's JSON into the live, possibly non-empty set: afterwards the set
 		// holds exactly the decoded document (the receiver is replaced, as a freshly decoded
@@ -628,7 +661,7 @@ func (p Prop) Run(r *core.Run) *core.Violation {
 		ops = append(ops, o)
 		fmt.Fprint(h, o.String(), ";")
 		switch o.kind {
-		case opAdd, opRemove, opCollectThenMutate:
+		case opAdd, opRemove, opCollectThenMutate, opReplaceDuringAll:
 			mut++
 		case opRoundTripJSON, opRoundTripCedar, opLoadDoc, opUnmarshalInPlace:
 			rt++
